@@ -152,4 +152,43 @@ def _gen_call(chunk):
 def many_of(tid):
     """Table-size class of trace `tid`: "mid" = tables of several hundred entries, "big" = tables of several thousand entries
     (more than any page, chunk or cache the reader might split them into), None = a handful."""
-    return "mid" if tid % 8 == 0 else "big" if tid % 8 == 4 else None
+    return "mid" if tid % 8 == 0 else "big" if tid % 8 == 4 else "runs" if tid % 8 == 2 else None
+
+
+def run_plan(rng, n, kinds, lo=17, hi=30):
+    """n unit kinds in long homogeneous runs (lo..hi units each, neighbouring runs differ).  With units of 1-2 MiB a run is
+    longer than any buffer a reader might keep for zeroes / holes, and whole-disk requests cross every run in one call."""
+    out, prev = [], None
+    while len(out) < n:
+        k = rng.choice([x for x in kinds if x != prev])
+        out += [k] * rng.randrange(lo, hi + 1)
+        prev = k
+    return out[:n]
+
+
+def run_positions(plan, first=0, data=("D", "Dr")):
+    """Placement for the data units of a run plan: runs ascending and contiguous, runs of a kind ending in "r" contiguous but descending.
+    -> (positions (None for other kinds), number of positions used)"""
+    pos, cur, i = [None] * len(plan), first, 0
+    while i < len(plan):
+        j = i
+        while j < len(plan) and plan[j] == plan[i]:
+            j += 1
+        if plan[i] in data:
+            ln = j - i
+            for k in range(ln):
+                pos[i + k] = cur + (ln - 1 - k if str(plan[i]).endswith("r") else k)
+            cur += ln
+        i = j
+    return pos, cur - first
+
+
+def whole_disk_ops(rec, rng, size_b, unit, sectors_fn=None, ssize=512):
+    """Single calls that cover the whole disk / most of it."""
+    rec.seek(0, 0)
+    rec.read(size_b)
+    rec.readoffset(rng.randrange(0, 2 * unit) // 8 * 8, size_b)
+    rec.seek(unit + rng.choice([0, 512, 8, 4096]), 0)
+    rec.read(-1)
+    if sectors_fn is not None:
+        rec.sectors(sectors_fn, 1, size_b // ssize - 1, ssize)
